@@ -139,6 +139,7 @@ func c09PipeRun(e *vEnv, c c09PipeCase) (key, msg string, classes []string) {
 		rm.HandleRegUpdates(ctx, in, &wg)
 		close(returned)
 	}()
+	buffer := c.Workers / jobBufferDivisor
 	send := func(b []byte) bool {
 		select {
 		case in <- b:
@@ -147,7 +148,6 @@ func c09PipeRun(e *vEnv, c c09PipeCase) (key, msg string, classes []string) {
 			return false
 		}
 	}
-	buffer := c.Workers / jobBufferDivisor
 	// 1. occupy every worker: one message at a time, wait until a worker is parked in its probe.
 	//    Duplicates of message 0 take the duplicate path and do not park; they are sent first after 0.
 	sent := 0
@@ -162,33 +162,69 @@ func c09PipeRun(e *vEnv, c c09PipeCase) (key, msg string, classes []string) {
 		return false
 	}
 	dupCount := func() int64 { return atomic.LoadInt64(&rm.RegistrationStats.newDupRegistrations) }
-	if !send(c09Msg(0)) {
-		return "stall:distributor", "the distributor did not accept the first message", classes
+	// With fewer than 10 workers the hand-off channel is unbuffered: a message is handed over only
+	// to a worker that is waiting in its receive at that instant. Right after the start (or right
+	// after a worker finished) an idle worker may not be there yet and the message is dropped and
+	// counted - that is the documented overload behaviour, so such a message is sent again. What
+	// must not happen: every message being dropped although workers are idle.
+	extraDrops := int64(0)
+	sendUntilTaken := func(i int, taken func() bool) (string, string) {
+		for attempt := 0; ; attempt++ {
+			before := rm.RegistrationStats.droppedForVerif()
+			if !send(c09Msg(i)) {
+				return "stall:distributor", fmt.Sprintf("the distributor did not accept message %d while workers were free", i)
+			}
+			sent++
+			if buffer > 0 {
+				if !waitFor(taken) {
+					return "harness", fmt.Sprintf("message %d never reached a probe (waiting=%d)", i, gate.Waiting())
+				}
+				return "", ""
+			}
+			// unbuffered: taken, or dropped and counted
+			ok := false
+			for deadline := time.Now().Add(slack); time.Now().Before(deadline); time.Sleep(100 * time.Microsecond) {
+				if taken() {
+					ok = true
+					break
+				}
+				if rm.RegistrationStats.droppedForVerif() > before {
+					break
+				}
+			}
+			if ok {
+				return "", ""
+			}
+			if rm.RegistrationStats.droppedForVerif() == before {
+				return "lost-message", fmt.Sprintf("message %d was neither handed to a worker nor counted as dropped", i)
+			}
+			extraDrops++
+			if attempt >= 400 {
+				return "dropped-with-idle-workers", fmt.Sprintf("%d workers, %d of them idle: message %d was dropped %d times in a row over %v although idle workers exist (every hand-off fails)", c.Workers, c.Workers-gate.Waiting(), i, attempt+1, time.Duration(attempt)*5*time.Millisecond)
+			}
+			time.Sleep(5 * time.Millisecond)
+		}
 	}
-	sent++
-	if !waitFor(func() bool { return gate.Waiting() >= 1 }) {
-		return "harness", "first worker never reached its probe", classes
+	if k, m := sendUntilTaken(0, func() bool { return gate.Waiting() >= 1 }); k != "" {
+		return k, m, classes
 	}
 	// duplicates of message 0 (now tracked): each must be consumed by a worker (counted as a
 	// duplicate) before the next message is sent, because the hand-off is non-blocking by design
 	// and a message arriving while the shallow buffer still holds the previous one is dropped.
-	for i := 0; i < c.Dups; i++ {
-		if !send(c09Msg(0)) {
-			return "stall:distributor", "the distributor did not accept a duplicate message", classes
-		}
-		sent++
-		if !waitFor(func() bool { return dupCount() >= int64(i+1) }) {
-			return "harness", fmt.Sprintf("duplicate %d was not processed (dups=%d)", i, dupCount()), classes
+	for i := 0; i < c.Dups && c.Workers > 1; i++ {
+		i := i
+		if k, m := sendUntilTaken(0, func() bool { return dupCount() >= int64(i+1) }); k != "" {
+			return k, m, classes
 		}
 	}
 	for i := 1; i < c.Workers; i++ {
-		if !send(c09Msg(i)) {
-			return "stall:distributor", fmt.Sprintf("the distributor did not accept message %d while workers were free", i), classes
+		i := i
+		if k, m := sendUntilTaken(i, func() bool { return gate.Waiting() >= i+1 }); k != "" {
+			return k, m, classes
 		}
-		sent++
-		if !waitFor(func() bool { return gate.Waiting() >= i+1 }) {
-			return "harness", fmt.Sprintf("worker %d never reached its probe (waiting=%d)", i, gate.Waiting()), classes
-		}
+	}
+	if buffer == 0 {
+		classes = append(classes, "unbuffered-hand-off")
 	}
 	// 2. fill the shallow buffer, then send the excess: each send must complete promptly
 	for i := 0; i < buffer+c.Excess; i++ {
@@ -199,7 +235,7 @@ func c09PipeRun(e *vEnv, c c09PipeCase) (key, msg string, classes []string) {
 	}
 	// the distributor handles messages one after another: once the outcome of the last message is
 	// visible (dropped, or sitting in the buffer) every earlier outcome is final
-	wantDropped := int64(c.Excess)
+	wantDropped := int64(c.Excess) + extraDrops
 	settled := func() bool {
 		if c.Excess > 0 {
 			return rm.RegistrationStats.droppedForVerif() >= wantDropped
@@ -276,9 +312,9 @@ func c09PipeCheck(t vh.Fataler, rec *vh.Rec, e *vEnv, c c09PipeCase) {
 }
 
 func TestVerif_C09_pipeline(t *testing.T) {
-	rec := vh.NewRec("C09", "pipeline", "the real HandleRegUpdates with W in {10,20,37} workers whose probes are parked, fed through an unbuffered channel: all workers occupied one by one, shallow buffer filled, then 0-12 excess messages (each send must complete within 10 s; dropped counter must equal the excess exactly), then a stop request with an idle input channel / a producer that keeps sending / a closed input channel, probes released before or after; in a third of the cases the registrations come from the local detector and are shared with a peer station that accepts the connection and never answers, or refuses it; grid + rapid-drawn cases; non-trivial = overload with excess > 0 or shutdown with an idle input channel; distinct by case")
+	rec := vh.NewRec("C09", "pipeline", "the real HandleRegUpdates with W in {1,3,4,9 (unbuffered hand-off),10,11,20,37} workers whose probes are parked, fed through an unbuffered channel: all workers occupied one by one, shallow buffer filled, then 0-12 excess messages (each send must complete within 10 s; dropped counter must equal the excess exactly), then a stop request with an idle input channel / a producer that keeps sending / a closed input channel, probes released before or after; in a third of the cases the registrations come from the local detector and are shared with a peer station that accepts the connection and never answers, or refuses it; grid + rapid-drawn cases; non-trivial = overload with excess > 0 or shutdown with an idle input channel; distinct by case")
 	defer rec.Flush()
-	rec.Require("overload", "shutdown-idle-input", "shutdown-busy-input", "share-peer:1")
+	rec.Require("overload", "shutdown-idle-input", "shutdown-busy-input", "share-peer:1", "unbuffered-hand-off")
 	e := vNewEnv(t, nil, "")
 	if p := vh.ReplayFile(); p != "" {
 		var c c09PipeCase
@@ -289,7 +325,7 @@ func TestVerif_C09_pipeline(t *testing.T) {
 		return
 	}
 	i := 0
-	for _, w := range []int{10, 20} {
+	for _, w := range []int{10, 20, 3} {
 		for _, ex := range []int{0, 1, 5} {
 			for sh := 0; sh <= 2; sh++ {
 				for _, rel := range []bool{true, false} {
@@ -310,7 +346,7 @@ func TestVerif_C09_pipeline(t *testing.T) {
 		}
 		left--
 		c := c09PipeCase{
-			Workers:  rapid.SampledFrom([]int{10, 11, 20, 37}).Draw(rt, "workers"),
+			Workers:  rapid.SampledFrom([]int{10, 11, 20, 37, 1, 4, 9}).Draw(rt, "workers"),
 			Excess:   rapid.IntRange(0, 12).Draw(rt, "excess"),
 			Dups:     rapid.IntRange(0, 4).Draw(rt, "dups"),
 			Shutdown: rapid.IntRange(0, 2).Draw(rt, "shutdown"),
